@@ -137,6 +137,16 @@ func piece(c *hx.Ctx) ([]byte, string) {
 	return biasedBytes(c, c.Rng.Intn(9)), randOp(c)
 }
 
+// emit runs one case unless the allocation bound was already violated more than 30 times in this process: the check has
+// failed by then and every further hostile prefix costs up to a second (2 GiB are allocated and zeroed per call)
+func emit(c *hx.Ctx, format string, a ...any) {
+	if allocViolations > 30 {
+		c.Count("skipped_after_30_allocation_violations")
+		return
+	}
+	c.Emit(format, a...)
+}
+
 func pickS(c *hx.Ctx, xs []string) string { return xs[c.Rng.Intn(len(xs))] }
 
 func emitAllPositions(c *hx.Ctx, s []byte, full bool) {
@@ -160,7 +170,7 @@ func emitAllPositions(c *hx.Ctx, s []byte, full bool) {
 			}
 		}
 	}
-	c.Emit("%s | %s", hexOf(s), strings.Join(ops, " ; "))
+	emit(c, "%s | %s", hexOf(s), strings.Join(ops, " ; "))
 }
 
 func gen(c *hx.Ctx) {
@@ -185,11 +195,11 @@ func gen(c *hx.Ctx) {
 			ops = append(ops, "@0 "+o)
 		}
 		body := strings.Join(ops, " ; ")
-		third := []byte{0x00, 0x01, 0x0f, 0x10, 0x7f, 0x80, 0xff, byte(c.Rng.U64())}
+		third := []byte{0x00, 0x01, 0x0f, 0x10, 0x7f, 0x80, 0xff, byte(c.Rng.U64()), byte(c.Rng.U64()), byte(c.Rng.U64()), byte(c.Rng.U64()), byte(c.Rng.U64())}
 		for a := 0; a < 256; a++ {
 			for b := 0; b < 256; b++ {
 				for _, t := range third {
-					c.Emit("%s | %s", hexOf([]byte{byte(a), byte(b), t}), body)
+					emit(c, "%s | %s", hexOf([]byte{byte(a), byte(b), t}), body)
 					c.Count("len3_sampled_third")
 				}
 			}
@@ -200,7 +210,7 @@ func gen(c *hx.Ctx) {
 	var rec func(prefix []byte, depth int)
 	rec = func(prefix []byte, depth int) {
 		if depth > 0 {
-			c.Emit("%s | v7 ; @0 bytes ; @0 str", hexOf(prefix))
+			emit(c, "%s | v7 ; @0 bytes ; @0 str", hexOf(prefix))
 			c.Count("v7_patterns")
 		}
 		if depth == 6 {
@@ -213,7 +223,7 @@ func gen(c *hx.Ctx) {
 			for _, cont := range []byte{0x00, 0x80} {
 				if cont == 0 && depth < 5 {
 					// terminal byte: emit and stop this branch
-					c.Emit("%s | v7 ; @0 bytes ; @0 str", hexOf(append(append([]byte(nil), prefix...), d)))
+					emit(c, "%s | v7 ; @0 bytes ; @0 str", hexOf(append(append([]byte(nil), prefix...), d)))
 					c.Count("v7_patterns")
 					continue
 				}
@@ -226,7 +236,7 @@ func gen(c *hx.Ctx) {
 	rec(nil, 0)
 
 	// 2. structure-aware random inputs: concatenated pieces (valid, truncated, over-long, hostile prefixes) + matching / random calls
-	for i := 0; i < c.Budget(25000, 400000); i++ {
+	for i := 0; i < c.Budget(25000, 600000); i++ {
 		var input []byte
 		var ops []string
 		for k := c.Rng.Range(1, 5); k > 0; k-- {
@@ -244,18 +254,18 @@ func gen(c *hx.Ctx) {
 			j := c.Rng.Intn(len(ops))
 			ops[j] = "@" + strconv.Itoa(c.Rng.Intn(min(len(input), 12)+1)) + " " + ops[j]
 		}
-		c.Emit("%s | %s", hexOf(input), strings.Join(ops, " ; "))
+		emit(c, "%s | %s", hexOf(input), strings.Join(ops, " ; "))
 		c.Count("structured")
 	}
 	// 3. short biased inputs, longer random call sequences
-	for i := 0; i < c.Budget(15000, 300000); i++ {
+	for i := 0; i < c.Budget(15000, 400000); i++ {
 		input := biasedBytes(c, c.Rng.Intn(13))
 		n := c.Rng.Range(1, 10)
 		ops := make([]string, n)
 		for j := range ops {
 			ops[j] = randOp(c)
 		}
-		c.Emit("%s | %s", hexOf(input), strings.Join(ops, " ; "))
+		emit(c, "%s | %s", hexOf(input), strings.Join(ops, " ; "))
 		c.Count("random_sequences")
 	}
 }
